@@ -1,4 +1,4 @@
-"""C08 generators: topology specs (families LAN / ROUTED / SHARED / DMZ / WIFI / LOOP / RING) and operation lists.
+"""C08 generators: topology specs (families LAN / ROUTED / SHARED / MULTIHOME / DMZ / WIFI / LOOP / RING) and operation lists.
 
 `avoid_storm=True` is the exclusion by construction used while finding C08-arp-request-loop (routers route link-layer
 broadcasts) is open: no unowned next hops / pinged addresses on a segment shared by two routing devices, two wireless
@@ -306,6 +306,59 @@ def shared_spec(draw, avoid_storm=False):
 
 
 @st.composite
+def multihome_spec(draw, avoid_storm=False):
+    """A router joining LANs A and B (optionally C, optionally a second router with a remote LAN) and a two-NIC host:
+    NIC 1 on A together with its default gateway, NIC 2 on B next to its peers (the `security_suite` shape of the shipped
+    data_manipulation scenario).  While NIC 2 is down the host must reach B through the gateway on NIC 1."""
+    b = _B("multihome", draw(st.sampled_from([1, 2])))
+    r0 = {"k": "router", "name": "r0", "ifs": [], "routes": [], "default": None}
+    b.spec["nodes"].append(r0)
+    nl = draw(st.sampled_from([2, 2, 3]))
+    lan = []
+    for l in range(nl):
+        plen = draw(st.sampled_from([24, 28]))
+        net, dev_ip, hips, unused = _lan_addr(0, l, plen)
+        r0["ifs"].append([l + 1, dev_ip, plen])
+        sw = b.switch()
+        b.link("r0", l + 1, sw, b.sw_port(sw))
+        lan.append({"sw": sw, "dev": dev_ip, "hips": hips, "plen": plen, "net": net, "unused": unused})
+    A, B = lan[0], lan[1]
+    m = b.host(A["hips"][0], A["plen"], A["dev"], draw(st.booleans()))
+    b.spec["nodes"][-1]["nic2"] = [B["hips"][3], B["plen"]]
+    b.link(A["sw"], b.sw_port(A["sw"]), m, 1)
+    b.link(B["sw"], b.sw_port(B["sw"]), m, 2)
+    peers = []
+    for k in range(draw(st.integers(1, 2))):
+        h = b.host(B["hips"][k], B["plen"], draw(st.sampled_from([B["dev"]] * 6 + [None])), draw(st.booleans()))
+        b.link(B["sw"], b.sw_port(B["sw"]), h, 1)
+        peers.append(h)
+    if draw(st.booleans()):
+        h = b.host(A["hips"][1], A["plen"], A["dev"], draw(st.booleans()))
+        b.link(A["sw"], b.sw_port(A["sw"]), h, 1)
+    if nl == 3:
+        h = b.host(lan[2]["hips"][0], lan[2]["plen"], lan[2]["dev"], draw(st.booleans()))
+        b.link(lan[2]["sw"], b.sw_port(lan[2]["sw"]), h, 1)
+    if draw(st.integers(0, 2)) == 0:
+        tpl = draw(st.sampled_from([24, 30]))
+        r0["ifs"].append([5, "10.200.1.1", tpl])
+        r1 = {"k": "router", "name": "r1", "ifs": [[4, "10.200.1.2", tpl]], "routes": [], "default": None}
+        b.spec["nodes"].append(r1)
+        b.link("r0", 5, "r1", 4)
+        plen = draw(st.sampled_from([24, 28]))
+        net, dev_ip, hips, unused = _lan_addr(1, 0, plen)
+        r1["ifs"].append([1, dev_ip, plen])
+        b.attach_lan(draw, "r1", 1, dev_ip, hips, plen, unused, 1)
+        r0["routes"].append([net, plen, "10.200.1.2", 0])
+        if draw(st.booleans()):
+            r1["default"] = "10.200.1.1"
+        else:
+            r1["routes"].append(["10.1.0.0", 16, "10.200.1.1", 0])
+    b.spec["multihomed"] = [[m, peers]]
+    _fix_roles(b.spec, draw)
+    return b.spec
+
+
+@st.composite
 def dmz_spec(draw, avoid_storm=False):
     b = _B("dmz", draw(st.sampled_from([1, 2])))
     fw = {"k": "firewall", "name": "fw", "ifs": [], "routes": [], "default": None}
@@ -488,6 +541,30 @@ def ops_for(draw, spec: Dict, avoid_storm: bool = False, max_pairs: int = 30):
         ops.append(["flush_arp"])
         ops.append(["tick"])
         ops += round_(0.5, 0.5)
+    for m, peers in spec.get("multihomed", []):
+        # exchange (warm by now), disable the NIC on the peers' subnet, exchange again, re-enable, exchange
+        def both_ways():
+            out = []
+            for p_ in peers:
+                out += [["ping", m, p_], ["ping", p_, m], ["ping", p_, m, 2]]
+                if [m, p_] in dns_pairs:
+                    out.append(["dns", m, p_])
+                if [p_, m] in dns_pairs:
+                    out += [["dns", p_, m], ["dns", p_, m, 2]]
+            return list(draw(st.permutations(out)))
+
+        ops += both_ways()
+        ops.append(["nic", m, 2, "disable"])
+        ops += both_ways()
+        if draw(st.booleans()):
+            ops += round_(0.5, 0.5)
+        ops.append(["nic", m, 2, "enable"])
+        ops += both_ways()
+        if draw(st.booleans()):
+            ops.append(["nic", m, 1, "disable"])
+            ops += both_ways()
+            ops.append(["nic", m, 1, "enable"])
+            ops += both_ways()
     off_nodes = [n["name"] for n in spec["nodes"] if n.get("off")]
     if off_nodes and draw(st.integers(0, 2)) > 0:
         # the declared-OFF nodes are started (all or all but one) and a full round follows
@@ -536,8 +613,8 @@ def ops_for(draw, spec: Dict, avoid_storm: bool = False, max_pairs: int = 30):
 
 @st.composite
 def topo_case(draw, family: str, avoid_storm: bool = False, avoid_nh_host: bool = False):
-    strat = {"lan": lan_spec, "routed": routed_spec, "shared": shared_spec, "dmz": dmz_spec, "wifi": wifi_spec,
-             "loop": loop_spec, "ring": ring_spec}[family]
+    strat = {"lan": lan_spec, "routed": routed_spec, "shared": shared_spec, "multihome": multihome_spec,
+             "dmz": dmz_spec, "wifi": wifi_spec, "loop": loop_spec, "ring": ring_spec}[family]
     if family == "routed":
         spec = draw(strat(avoid_storm=avoid_storm, avoid_nh_host=avoid_nh_host))
     else:
